@@ -1,1 +1,245 @@
-(* Props/C14.v -- stub, to be filled in *)
+(* Props/C14.v -- property theorems only: Theorem / exact lemma / Check (pins the statement) / Print Assumptions.
+   Layout: every Theorem / Proof / Check first, all Print Assumptions (same order) at the end of the file -- the
+   driver's assumption parser (driver/common.py, frozen) attributes everything printed after an "Axioms:" block to
+   that block, so the line "name : statement" printed by a Check between two Print Assumptions would be read as
+   one more axiom.  Related statements are grouped into one theorem (a conjunction) where that loses nothing:
+   each Print Assumptions over R costs about a second of the check's budget.
+   All statements are about the model coq/Model/CFun.v over R x R (complex numbers as pairs of reals); the model is
+   tied to src/complex/*.rs by the Interval certificates of the C14 check.  czero = (0,0), cone = (1,0), ci = (0,1),
+   ctwo = cone + cone = (2,0).  libm accuracy / f64 rounding are not the subject of these theorems (DESIGN 10). *)
+From Coq Require Import Reals Lra.
+From OV Require Import Model.CFun Proofs.CFun Proofs.CFunAlg Proofs.CFunInv Proofs.CFunReal.
+Local Open Scope R_scope.
+
+(* ---- modulus and argument: z = |z| (cos arg z, sin arg z), arg z in (-PI, PI] ---- *)
+Theorem polar_decomp : forall z : C, z <> czero ->
+  z = cmul_r (cos (arg z), sin (arg z)) (cabs z) /\ - PI < arg z <= PI.
+Proof. intros z Hz. exact (conj (polar_form z Hz) (arg_range z)). Qed.
+Check polar_decomp : forall z : C, z <> czero ->
+  z = cmul_r (cos (arg z), sin (arg z)) (cabs z) /\ - PI < arg z <= PI.
+Example polar_decomp_nonvacuous : (-3, 4) <> czero.
+Proof. intros H; inversion H; lra. Qed.
+
+(* ---- exp / ln / sqrt: inverse pairs and principal branches ---- *)
+Theorem exp_ln : forall z : C, z <> czero -> cexp (cln z) = z.
+Proof. exact exp_ln_lemma. Qed.
+Check exp_ln : forall z : C, z <> czero -> cexp (cln z) = z.
+Example exp_ln_nonvacuous : (-1, 0) <> czero.
+Proof. intros H; inversion H; lra. Qed.
+
+Theorem sqrt_sqr : forall z : C, cmul (csqrt z) (csqrt z) = z.
+Proof. exact sqrt_sqr_lemma. Qed.
+Check sqrt_sqr : forall z : C, cmul (csqrt z) (csqrt z) = z.
+
+Theorem re_sqrt_nonneg : forall z : C, 0 <= re (csqrt z).
+Proof. exact re_sqrt_nonneg_lemma. Qed.
+Check re_sqrt_nonneg : forall z : C, 0 <= re (csqrt z).
+
+(* holds for every z (for z = 0 the model's arg is 0), so no hypothesis z <> 0 is needed *)
+Theorem im_ln_range : forall z : C, - PI < im (cln z) <= PI.
+Proof. exact im_ln_range_lemma. Qed.
+Check im_ln_range : forall z : C, - PI < im (cln z) <= PI.
+
+(* ---- general powers: z^w = exp (w ln z); powf is pow with a real exponent ---- *)
+Theorem pow_is_exp_ln : forall z w : C, z <> czero ->
+  cpow z w = cexp (cmul w (cln z)) /\ forall x : R, cpowf z x = cpow z (x, 0).
+Proof. intros z w Hz. exact (conj (pow_is_exp_ln_lemma z w Hz) (powf_is_pow_lemma z)). Qed.
+Check pow_is_exp_ln : forall z w : C, z <> czero ->
+  cpow z w = cexp (cmul w (cln z)) /\ forall x : R, cpowf z x = cpow z (x, 0).
+Example pow_is_exp_ln_nonvacuous : (0, -2) <> czero.
+Proof. intros H; inversion H; lra. Qed.
+
+(* ---- polar form round trips, both directions ---- *)
+Theorem polar_roundtrip : forall z : C, z <> czero -> cpolar (cabs z) (arg z) = z.
+Proof. exact polar_roundtrip_lemma. Qed.
+Check polar_roundtrip : forall z : C, z <> czero -> cpolar (cabs z) (arg z) = z.
+Example polar_roundtrip_nonvacuous : (0, -1) <> czero.
+Proof. intros H; inversion H; lra. Qed.
+
+Theorem polar_roundtrip_inv : forall r t : R, 0 < r -> - PI < t <= PI ->
+  cabs (cpolar r t) = r /\ arg (cpolar r t) = t.
+Proof. intros r t Hr Ht. exact (conj (cabs_polar r t (Rlt_le _ _ Hr)) (arg_polar r t Hr Ht)). Qed.
+Check polar_roundtrip_inv : forall r t : R, 0 < r -> - PI < t <= PI ->
+  cabs (cpolar r t) = r /\ arg (cpolar r t) = t.
+Example polar_roundtrip_inv_nonvacuous : 0 < 2 /\ - PI < PI <= PI.
+Proof. pose proof PI_RGT_0. lra. Qed.
+
+(* ---- sin / cos / sinh / cosh equal their exponential definitions; exp is a homomorphism ---- *)
+Theorem exponential_forms : forall z : C,
+  csin z = cdiv (csub (cexp (cmul ci z)) (cexp (cneg (cmul ci z)))) (cmul ctwo ci) /\
+  ccos z = cdiv (cadd (cexp (cmul ci z)) (cexp (cneg (cmul ci z)))) ctwo /\
+  csinh z = cdiv (csub (cexp z) (cexp (cneg z))) ctwo /\
+  ccosh z = cdiv (cadd (cexp z) (cexp (cneg z))) ctwo /\
+  forall w : C, cexp (cadd z w) = cmul (cexp z) (cexp w).
+Proof. intros z. exact (conj (csin_exp_lemma z) (conj (ccos_exp_lemma z) (conj (csinh_exp_lemma z) (conj (ccosh_exp_lemma z) (cexp_add z))))). Qed.
+Check exponential_forms : forall z : C,
+  csin z = cdiv (csub (cexp (cmul ci z)) (cexp (cneg (cmul ci z)))) (cmul ctwo ci) /\
+  ccos z = cdiv (cadd (cexp (cmul ci z)) (cexp (cneg (cmul ci z)))) ctwo /\
+  csinh z = cdiv (csub (cexp z) (cexp (cneg z))) ctwo /\
+  ccosh z = cdiv (cadd (cexp z) (cexp (cneg z))) ctwo /\
+  forall w : C, cexp (cadd z w) = cmul (cexp z) (cexp w).
+
+(* ---- Pythagorean identities ---- *)
+Theorem pythagoras : forall z : C,
+  cadd (cmul (csin z) (csin z)) (cmul (ccos z) (ccos z)) = cone /\
+  csub (cmul (ccosh z) (ccosh z)) (cmul (csinh z) (csinh z)) = cone.
+Proof. intros z. exact (conj (pythagoras_lemma z) (pythagoras_hyp_lemma z)). Qed.
+Check pythagoras : forall z : C,
+  cadd (cmul (csin z) (csin z)) (cmul (ccos z) (ccos z)) = cone /\
+  csub (cmul (ccosh z) (ccosh z)) (cmul (csinh z) (csinh z)) = cone.
+
+(* ---- reduction to the real functions on the real axis ---- *)
+Theorem real_axis_direct : forall x : R,
+  cexp (x, 0) = (exp x, 0) /\ csin (x, 0) = (sin x, 0) /\ ccos (x, 0) = (cos x, 0) /\
+  csinh (x, 0) = (sinh x, 0) /\ ccosh (x, 0) = (cosh x, 0) /\ ctanh (x, 0) = (tanh x, 0) /\
+  (cos x <> 0 -> ctan (x, 0) = (tan x, 0)).
+Proof. intros x. exact (conj (cexp_real x) (conj (csin_real x) (conj (ccos_real x) (conj (csinh_real x) (conj (ccosh_real x) (conj (ctanh_real x) (ctan_real x))))))). Qed.
+Check real_axis_direct : forall x : R,
+  cexp (x, 0) = (exp x, 0) /\ csin (x, 0) = (sin x, 0) /\ ccos (x, 0) = (cos x, 0) /\
+  csinh (x, 0) = (sinh x, 0) /\ ccosh (x, 0) = (cosh x, 0) /\ ctanh (x, 0) = (tanh x, 0) /\
+  (cos x <> 0 -> ctan (x, 0) = (tan x, 0)).
+Example real_axis_direct_nonvacuous : cos 0 <> 0.
+Proof. rewrite cos_0. lra. Qed.
+
+Theorem real_axis_ln_sqrt : forall x : R,
+  (0 < x -> cln (x, 0) = (ln x, 0) /\ csqrt (x, 0) = (sqrt x, 0) /\ forall a : R, cpowf (x, 0) a = (Rpower x a, 0)) /\
+  (x < 0 -> cln (x, 0) = (ln (- x), PI) /\ csqrt (x, 0) = (0, sqrt (- x))).
+Proof. intros x. exact (conj (fun Hx => conj (cln_real x Hx) (conj (csqrt_real x (Rlt_le _ _ Hx)) (fun a => cpowf_real x a Hx))) (fun Hx => conj (cln_real_neg x Hx) (csqrt_real_neg x Hx))). Qed.
+Check real_axis_ln_sqrt : forall x : R,
+  (0 < x -> cln (x, 0) = (ln x, 0) /\ csqrt (x, 0) = (sqrt x, 0) /\ forall a : R, cpowf (x, 0) a = (Rpower x a, 0)) /\
+  (x < 0 -> cln (x, 0) = (ln (- x), PI) /\ csqrt (x, 0) = (0, sqrt (- x))).
+Example real_axis_ln_sqrt_nonvacuous : 0 < 2 /\ -4 < 0.
+Proof. lra. Qed.
+
+(* the inverse functions on the real axis, inside the real domain of the real inverse (asin, acos, arcsinh are the
+   standard library's; atanh / acosh have no standard-library counterpart and are stated by their logarithm forms) *)
+Theorem real_axis_inverse : forall x : R,
+  catan (x, 0) = (atan x, 0) /\ casinh (x, 0) = (arcsinh x, 0) /\
+  (-1 < x < 1 -> casin (x, 0) = (asin x, 0) /\ cacos (x, 0) = (acos x, 0) /\
+                 catanh (x, 0) = ((ln (1 + x) - ln (1 - x)) / 2, 0)) /\
+  (1 <= x -> cacosh (x, 0) = (ln (x + sqrt (x - 1) * sqrt (x + 1)), 0)).
+Proof. intros x. exact (conj (catan_real x) (conj (casinh_real x) (conj (fun H => conj (casin_real x H) (conj (cacos_real x H) (catanh_real x H))) (cacosh_real x)))). Qed.
+Check real_axis_inverse : forall x : R,
+  catan (x, 0) = (atan x, 0) /\ casinh (x, 0) = (arcsinh x, 0) /\
+  (-1 < x < 1 -> casin (x, 0) = (asin x, 0) /\ cacos (x, 0) = (acos x, 0) /\
+                 catanh (x, 0) = ((ln (1 + x) - ln (1 - x)) / 2, 0)) /\
+  (1 <= x -> cacosh (x, 0) = (ln (x + sqrt (x - 1) * sqrt (x + 1)), 0)).
+Example real_axis_inverse_nonvacuous : -1 < 1 / 2 < 1 /\ 1 <= 2.
+Proof. lra. Qed.
+
+(* ---- reciprocal functions are reciprocals (sec, csc, cot, sech, csch, coth are cone / f in the model as in the source);
+        tan, tanh are the quotients ---- *)
+Theorem reciprocals : forall z : C,
+  (ccos z <> czero -> cmul (csec z) (ccos z) = cone /\ cmul (ctan z) (ccos z) = csin z) /\
+  (csin z <> czero -> cmul (ccsc z) (csin z) = cone) /\
+  (ctan z <> czero -> cmul (ccot z) (ctan z) = cone) /\
+  (ccosh z <> czero -> cmul (csech z) (ccosh z) = cone /\ cmul (ctanh z) (ccosh z) = csinh z) /\
+  (csinh z <> czero -> cmul (ccsch z) (csinh z) = cone) /\
+  (ctanh z <> czero -> cmul (ccoth z) (ctanh z) = cone).
+Proof. intros z. exact (conj (fun H => conj (crecip_mul (ccos z) H) (ctan_is_quotient z H)) (conj (crecip_mul (csin z)) (conj (crecip_mul (ctan z)) (conj (fun H => conj (crecip_mul (ccosh z) H) (ctanh_is_quotient z H)) (conj (crecip_mul (csinh z)) (crecip_mul (ctanh z))))))). Qed.
+Check reciprocals : forall z : C,
+  (ccos z <> czero -> cmul (csec z) (ccos z) = cone /\ cmul (ctan z) (ccos z) = csin z) /\
+  (csin z <> czero -> cmul (ccsc z) (csin z) = cone) /\
+  (ctan z <> czero -> cmul (ccot z) (ctan z) = cone) /\
+  (ccosh z <> czero -> cmul (csech z) (ccosh z) = cone /\ cmul (ctanh z) (ccosh z) = csinh z) /\
+  (csinh z <> czero -> cmul (ccsch z) (csinh z) = cone) /\
+  (ctanh z <> czero -> cmul (ccoth z) (ctanh z) = cone).
+Example reciprocals_nonvacuous : ccos (0, 0) <> czero /\ ccosh (0, 0) <> czero.
+Proof. rewrite ccos_real, ccosh_real, cos_0, cosh_0. split; intros H; inversion H; lra. Qed.
+
+(* ---- right inverses: f (f^-1 z) = z ---- *)
+Theorem sin_asin : forall z : C, csin (casin z) = z.
+Proof. exact sin_asin_lemma. Qed.
+Check sin_asin : forall z : C, csin (casin z) = z.
+
+Theorem cos_acos : forall z : C, ccos (cacos z) = z.
+Proof. exact cos_acos_lemma. Qed.
+Check cos_acos : forall z : C, ccos (cacos z) = z.
+
+Theorem tan_atan : forall z : C, z <> ci -> z <> cneg ci -> ctan (catan z) = z.
+Proof. exact tan_atan_lemma. Qed.
+Check tan_atan : forall z : C, z <> ci -> z <> cneg ci -> ctan (catan z) = z.
+Example tan_atan_nonvacuous : (2, -3) <> ci /\ (2, -3) <> cneg ci.
+Proof. split; intros H; inversion H; lra. Qed.
+
+Theorem sinh_asinh : forall z : C, csinh (casinh z) = z.
+Proof. exact sinh_asinh_lemma. Qed.
+Check sinh_asinh : forall z : C, csinh (casinh z) = z.
+
+Theorem cosh_acosh : forall z : C, ccosh (cacosh z) = z.
+Proof. exact cosh_acosh_lemma. Qed.
+Check cosh_acosh : forall z : C, ccosh (cacosh z) = z.
+
+(* atanh is infinite at +-1 (atan at +-i): the hypotheses are necessary *)
+Theorem tanh_atanh : forall z : C, z <> cone -> z <> cneg cone -> ctanh (catanh z) = z.
+Proof. exact tanh_atanh_lemma. Qed.
+Check tanh_atanh : forall z : C, z <> cone -> z <> cneg cone -> ctanh (catanh z) = z.
+Example tanh_atanh_nonvacuous : (-2, 0) <> cone /\ (-2, 0) <> cneg cone.
+Proof. split; intros H; inversion H; lra. Qed.
+
+(* the six inverses defined through 1/z (asec, acsc, acot, asech, acsch, acoth) *)
+Theorem reciprocal_right_inverses : forall z : C, z <> czero ->
+  csec (casec z) = z /\ ccsc (cacsc z) = z /\ csech (casech z) = z /\ ccsch (cacsch z) = z /\
+  (z <> ci -> z <> cneg ci -> ccot (cacot z) = z) /\
+  (z <> cone -> z <> cneg cone -> ccoth (cacoth z) = z).
+Proof. intros z Hz. exact (conj (sec_asec_lemma z Hz) (conj (csc_acsc_lemma z Hz) (conj (sech_asech_lemma z Hz) (conj (csch_acsch_lemma z Hz) (conj (cot_acot_lemma z Hz) (coth_acoth_lemma z Hz)))))). Qed.
+Check reciprocal_right_inverses : forall z : C, z <> czero ->
+  csec (casec z) = z /\ ccsc (cacsc z) = z /\ csech (casech z) = z /\ ccsch (cacsch z) = z /\
+  (z <> ci -> z <> cneg ci -> ccot (cacot z) = z) /\
+  (z <> cone -> z <> cneg cone -> ccoth (cacoth z) = z).
+Example reciprocal_right_inverses_nonvacuous :
+  (1 / 2, 1 / 2) <> czero /\ (1 / 2, 1 / 2) <> ci /\ (1 / 2, 1 / 2) <> cneg ci /\ (1 / 2, 1 / 2) <> cone /\ (1 / 2, 1 / 2) <> cneg cone.
+Proof. repeat split; intros H; inversion H; lra. Qed.
+
+(* ---- principal ranges of asin / acos (for every z, cuts included); asin z + acos z = PI/2 ---- *)
+Theorem asin_acos_ranges : forall z : C,
+  - (PI / 2) <= re (casin z) <= PI / 2 /\ 0 <= re (cacos z) <= PI /\ cadd (casin z) (cacos z) = (PI / 2, 0).
+Proof. intros z. exact (conj (re_asin_range_lemma z) (conj (re_acos_range_lemma z) (asin_acos_sum z))). Qed.
+Check asin_acos_ranges : forall z : C,
+  - (PI / 2) <= re (casin z) <= PI / 2 /\ 0 <= re (cacos z) <= PI /\ cadd (casin z) (cacos z) = (PI / 2, 0).
+
+(* ---- beyond the property text: ln and sqrt are also left inverses on their principal domains, and the base-b
+        logarithm inverts the power: b^(log_b z) = z ---- *)
+Theorem principal_left_inverses : forall z : C,
+  (- PI < im z <= PI -> cln (cexp z) = z) /\
+  (0 < re z -> csqrt (cmul z z) = z) /\
+  (forall b : C, z <> czero -> b <> czero -> cln b <> czero -> cpow b (clog z b) = z).
+Proof. intros z. exact (conj (ln_exp_lemma z) (conj (sqrt_of_sqr_lemma z) (fun b => pow_log_lemma z b))). Qed.
+Check principal_left_inverses : forall z : C,
+  (- PI < im z <= PI -> cln (cexp z) = z) /\
+  (0 < re z -> csqrt (cmul z z) = z) /\
+  (forall b : C, z <> czero -> b <> czero -> cln b <> czero -> cpow b (clog z b) = z).
+Example principal_left_inverses_nonvacuous :
+  - PI < im (3, - PI / 2) <= PI /\ 0 < re (2, 5) /\ (3, -3) <> czero /\ (2, 5) <> czero /\ cln (2, 0) <> czero.
+Proof.
+  pose proof PI_RGT_0 as Hpi. pose proof PI_4 as Hpi4. cbn [re im fst snd].
+  split; [lra|]. split; [lra|].
+  split; [intros H0; inversion H0; lra|]. split; [intros H0; inversion H0; lra|].
+  rewrite cln_real by lra. intros H0. inversion H0 as [H1].
+  assert (Hl : ln 1 < ln 2) by (apply ln_increasing; lra). rewrite ln_1 in Hl. lra.
+Qed.
+
+(* ---- assumption audit: one Print Assumptions per theorem, in the order of the theorems above ---- *)
+Print Assumptions polar_decomp.
+Print Assumptions exp_ln.
+Print Assumptions sqrt_sqr.
+Print Assumptions re_sqrt_nonneg.
+Print Assumptions im_ln_range.
+Print Assumptions pow_is_exp_ln.
+Print Assumptions polar_roundtrip.
+Print Assumptions polar_roundtrip_inv.
+Print Assumptions exponential_forms.
+Print Assumptions pythagoras.
+Print Assumptions real_axis_direct.
+Print Assumptions real_axis_ln_sqrt.
+Print Assumptions real_axis_inverse.
+Print Assumptions reciprocals.
+Print Assumptions sin_asin.
+Print Assumptions cos_acos.
+Print Assumptions tan_atan.
+Print Assumptions sinh_asinh.
+Print Assumptions cosh_acosh.
+Print Assumptions tanh_atanh.
+Print Assumptions reciprocal_right_inverses.
+Print Assumptions asin_acos_ranges.
+Print Assumptions principal_left_inverses.
